@@ -112,10 +112,40 @@ def scatter (K n : Nat) (P : Pairs) (bits : List Bool) : Option (List (List Bool
 /-- `select_events(events, src_evt_idxs)` -/
 abbrev Method (ε : Type) := List ε → Option Pairs → Option (Result ε)
 
-/-- Dec band / RA band / spatial box / psi-func: a criterion per (source, event); the incoming pair
-table is ignored (as coded). -/
+/-- `mask_ra & mask_dec` -/
+def andMask (A B : List (List Bool)) : List (List Bool) :=
+  List.zipWith (fun a b => List.zipWith (fun x y => x && y) a b) A B
+
+/-- `create_src_evt_mask(src_evt_idxs, K, n)`: `mask = zeros((K, n)); mask[src_idxs, evt_idxs] = True`
+(duplicates and any order are fine); `none` = IndexError for an index outside the shape -/
+def incMask (K n : Nat) (P : Pairs) : Option (List (List Bool)) := scatter K n P (P.map (fun _ => true))
+
+/-- `mask &= create_src_evt_mask(...)` if an incoming table is given -/
+def restrictMask (K n : Nat) (M : List (List Bool)) : Option Pairs → Option (List (List Bool))
+  | none => some M
+  | some P =>
+    match incMask K n P with
+    | none => none
+    | some I => some (andMask M I)
+
+/-- Dec band / RA band / psi-func (after the fix "consider only the given source and event index
+pairs"): a criterion per (source, event), restricted to the incoming pair table if one is given -/
 def maskMethod {ε : Type} (K : Nat) (crit : Nat → ε → Bool) : Method ε :=
+  fun evs inc =>
+    match restrictMask K evs.length (critMask crit K evs) inc with
+    | none => none
+    | some M => selectByMask evs M
+
+/-- the mask methods as they were before that fix: the incoming pair table is ignored -/
+def maskMethodUnfixed {ε : Type} (K : Nat) (crit : Nat → ε → Bool) : Method ε :=
   fun evs _ => selectByMask evs (critMask crit K evs)
+
+/-- `PsiFuncEventSelectionMethod` (one source): `mask_sky = np.atleast_2d(psi < func(...))` -/
+def psiFuncMethod {ε : Type} (p : ε → Bool) : Method ε :=
+  fun evs inc =>
+    match restrictMask 1 evs.length [evs.map p] inc with
+    | none => none
+    | some M => selectByMask evs M
 
 /-- `if src_evt_idxs is None:` all pairs `else:` the incoming table -/
 def incTable (K n : Nat) : Option Pairs → Pairs
@@ -126,16 +156,14 @@ def incTable (K n : Nat) : Option Pairs → Pairs
 def allMethod {ε : Type} (K : Nat) : Method ε :=
   fun evs inc => some { events := evs, pairs := incTable K evs.length inc, org := List.range evs.length }
 
-/-- `mask_ra & mask_dec` -/
-def andMask (A B : List (List Bool)) : List (List Bool) :=
-  List.zipWith (fun a b => List.zipWith (fun x y => x && y) a b) A B
-
 /-- `SpatialBoxEventSelectionMethod`: `mask_ra` filled in source batches of `B`, `mask_dec` by
-broadcasting, `mask_sky = mask_ra & mask_dec` -/
+broadcasting, `mask_sky = mask_ra & mask_dec`, restricted to the incoming table if one is given -/
 def boxMethod {ε : Type} (B K : Nat) (critRa critDec : Nat → ε → Bool) : Method ε :=
-  fun evs _ =>
-    selectByMask evs
-      (andMask (batchedMask B K evs.length (fun k => evs.map (critRa k))) (critMask critDec K evs))
+  fun evs inc =>
+    match restrictMask K evs.length
+        (andMask (batchedMask B K evs.length (fun k => evs.map (critRa k))) (critMask critDec K evs)) inc with
+    | none => none
+    | some M => selectByMask evs M
 
 /-- the criterion of pair `p = (source, event index)`; an index outside the events cannot occur
 for a table accepted by `scatter` -/
